@@ -8,8 +8,8 @@ PROPS = {
                 "alloc_from_array|iter / set_value_at / write_bytes / write_string / location_of_index over 20 record types of the "
                 "writers, run on the real Buffer and on the Lean model; a separate hostile stream uses out-of-range array indices "
                 "(the code has no guard; the model must predict overwrite, growth or panic). Non-trivial = at least two handles "
-                "and at least one later fill (patch); distinct = distinct op-kind sequences among those. Plus DirSection::new on images of 0 … 100 bytes with the destination positioned anywhere: the reported directory position is the offset of the reservation in the image (dirpos).",
-        "expected_tags": ["op.A", "op.W", "op.S", "op.R", "op.F", "op.T", "op.B", "op.X", "op.L", "panic", "str.astral", "str.empty"],
+                "and at least one later fill (patch); distinct = distinct op-kind sequences among those. Plus DirSection::new on images of 0 … 100 bytes with the destination positioned anywhere: the reported directory position is the offset of the reservation in the image (dirpos). Histories on the real DirSection (dirhist), with unused entries among the entries handed over.",
+        "expected_tags": ["op.A", "op.W", "op.S", "op.R", "op.F", "op.T", "op.B", "op.X", "op.L", "panic", "str.astral", "str.empty", "dir.position"],
         "trusted_base": ["scroll's Pwrite/SizeWith (a value of type T serialises to exactly size_with(T) little-endian bytes)",
                          "str::encode_utf16 (compared with the model's encoder on every generated string)"],
         "assumptions": ["image below 4 GiB (RVAs are u32; the theorems carry the guard explicitly)"],
@@ -72,7 +72,7 @@ PROPS = {
                 "and lengths incl. lengths shorter than the offset. Non-trivial = at least 3 word classes present; distinct = distinct "
                 "(#mappings, length, offset mod 8, class set)."
                 " Plus real sanitizing dumps of live targets (the C01 generator): every captured stack must equal the model's sanitisation of the "
-                "target's bytes with the thread's stack pointer and the aggregated mappings (the call site).",
+                "target's bytes with the thread's stack pointer and the aggregated mappings (the call site). Words at the ends of the signed range (2^63, 2^63 ± 1, 2^63 ± 4096). Live: threads whose stack pointer lies below the captured region (sp.below) over stack bottoms filled with small integers, stack and code pointers and other words.",
         "expected_tags": ["word.small+", "word.small-", "word.stack", "word.code", "word.prefilter.falsepos", "word.other", "len<offset", "partial.tail", "stack.sanitized", "stack.defaced", "sp.below"],
         "trusted_base": ["little-endian 64-bit words (x86_64)"],
         "assumptions": ["mapping list as produced by aggregate: system range inside the hull, pairwise disjoint system ranges, no 64-bit overflow (WfMaps; C13)"],
@@ -127,7 +127,7 @@ PROPS = {
                 "random bytes already in the image. Non-trivial = mixed list (some named, some unnamed); distinct = distinct name-length patterns."
                 " Plus real dumps of live targets whose threads carry empty, white-space, non-ASCII and default names: every record names a listed "
                 "thread once with the kernel's comm (read independently, trailing white space trimmed), in thread-list order, and every listed thread "
-                "with a readable name has a record.",
+                "with a readable name has a record. Thread names with embedded line feeds.",
         "expected_tags": ["mixed", "all.named", "none.named", "name.empty", "name.astral", "name.checked", "name.empty", "name.nonascii"],
         "trusted_base": ["str::encode_utf16 (units are taken from the real encoder; C16 covers the encoder model)"],
         "assumptions": ["thread ids below 2^31 (pid_t), image below 4 GiB"],
@@ -169,7 +169,7 @@ PROPS = {
                 "Before the last request of each history the target's resource limits are changed (prlimit), and the copies of the target's files that do "
                 "not change by themselves (release file, cmdline, environ, auxv, maps, limits) in that request's dump are compared byte for byte with the "
                 "fresh writer's dump of the same parked target. "
-                "Distinct = distinct (k, option vector, summary length). In a quarter of the histories the target maps the page behind a partly readable application region before the last request; only that request is then compared with the fresh writer's. In a fifth of the histories the requests fail inside the thread-list writer (the crash context's instruction pointer lies in a page behind the end of a mapped file) until the file has grown before the last request.",
+                "Distinct = distinct (k, option vector, summary length). In a quarter of the histories the target maps the page behind a partly readable application region before the last request; only that request is then compared with the fresh writer's. In a fifth of the histories the requests fail inside the thread-list writer (the crash context's instruction pointer lies in a page behind the end of a mapped file) until the file has grown before the last request. In a quarter of the plain histories the writer is reconfigured: the earlier requests are made with a principal address that resolves, the last with one at which nothing is mapped (only the last is compared).",
         "expected_tags": ["k.2", "k.3", "k.4", "k.5", "cfg.crash", "cfg.app", "cfg.skip", "raw.compared", "target.mutated", "target.grown", "writer.reconfigured"],
         "trusted_base": ["the target is blocked in raw syscalls, so its state is the same at every request"],
         "assumptions": ["Linux writer only (src/mac has the same field but cannot be built here)"],
@@ -181,7 +181,7 @@ PROPS = {
         "rule": "in-process: random ucontext / fpstate register files (boundary values per field) through the real CrashContext::fill_cpu_context and scroll; "
                 "live: real dumps with and without a crash context (registers inside / outside mappings, blamed thread main / other / absent / traced by "
                 "another process so that it cannot be attached): decoded exception stream and blamed thread's entry. Non-trivial = every case; distinct = "
-                "distinct register residues (in-process) / option vectors (live). Signal codes include the negative ones (SI_TKILL, SI_QUEUE, …) and the extremes.",
+                "distinct register residues (in-process) / option vectors (live). Signal codes include the negative ones (SI_TKILL, SI_QUEUE, …) and the extremes. Signal numbers also from {0, 1, 5, 8, 31, 32 … 65, 255, 2^31, 2^32 − 1}.",
         "expected_tags": ["uctx", "cfg.crash", "cfg.nocrash", "blamed.listed", "blamed.unlisted"],
         "trusted_base": ["scroll field-wise little-endian serialisation of CONTEXT_AMD64 (byte-compared with the model)", "the live target reports its own register values"],
         "assumptions": ["x86_64", "ds/es/ss are not part of a ucontext; CONTEXT.MxCsr (top level) is left 0 by the writer, float_save.mx_csr carries the value"],
@@ -199,7 +199,7 @@ PROPS = {
         "rule": "in-process: random user_regs / fpregs / debug registers through the real ThreadInfo::fill_cpu_context; live: targets whose threads load sentinel "
                 "values into rbx rbp r8-r10 r12-r15, all 16 SSE and two x87 registers and block in a raw syscall (1 … 64 threads, all option combinations), "
                 "threads made to exit at threads_enumerated / before_attach through the sync hook (target not group-stopped), a blamed thread traced by "
-                "another process, busy threads keeping one counter in a register, a stack slot and an app-memory word. Distinct = (thread count, #exits, tag set).",
+                "another process, busy threads keeping one counter in a register, a stack slot and an app-memory word. Distinct = (thread count, #exits, tag set). A failed request in the exiting / busy / slow-thread cases (whose destination accepts everything) is a violation.",
         "expected_tags": ["pctx", "thread.checked", "exit.omitted", "busy.checked", "blamed.traced", "exits.threads_enumerated", "exits.before_attach"],
         "extra_theorems": ["plan_no_target_read_after_resume", "plan_resume_reached", "System_threads", "Suspend_source_agrees", "Suspend_retained", "Suspend_every_thread_tried", "Suspend_kept_listed", "Suspend_partition", "Suspend_no_threads_left", "Suspend_no_threads_left_reported"],
         "trusted_base": ["kernel ptrace stop semantics (a thread that was attached and waited for does not run until detached)", "the live target reports its own register values"],
@@ -212,7 +212,7 @@ PROPS = {
         "rule": "live dumps: pattern regions of 1 … 70000 bytes at all alignments ending at an unmapped / PROT_NONE / readable page requested as app memory, "
                 "crash instruction pointers inside / outside mappings, thread stacks; every recorded region is compared byte for byte with a snapshot of the "
                 "target's memory taken while it is blocked; the IP window is predicted from the target's memory map through the aggregate model. "
-                "Distinct = (list length, app lengths, tag set). Also requests made by a thread whose seccomp filter refuses process_vm_readv and pread64 (the reader falls back to PTRACE_PEEKDATA): application regions of every length mod 8 that end at a hole, crash instruction pointers just before it.",
+                "Distinct = (list length, app lengths, tag set). Also requests made by a thread whose seccomp filter refuses process_vm_readv and pread64 (the reader falls back to PTRACE_PEEKDATA): application regions of every length mod 8 that end at a hole, crash instruction pointers just before it. Requested regions may share their start address with another requested region of a different length or with the page of a thread's stack pointer.",
         "expected_tags": ["bytes.compared", "cfg.app", "ipwindow.expected", "ip.unmapped", "cfg.sanitize", "read.ptrace", "app.partialword", "app.model", "ipwindow.model", "stack.model"],
         "trusted_base": ["the harness reads the target's memory through /proc/<pid>/mem while it is blocked"],
         "assumptions": ["first or later dump of a writer alike (C19)", "an unreadable app region or IP window aborts the dump with Err (outside C07)",
@@ -262,7 +262,7 @@ PROPS = {
                 "reserved gap, from a non-zero offset, read-write, some unlinked after mapping; entry point inside the executable, inside a loaded module or "
                 "nowhere; 0 … 2 caller-supplied mappings that cover a module, its first page only, the same range, an enclosing range or an unrelated one. "
                 "The expected list is computed by the model from /proc/<pid>/maps (C13 model), the effective auxiliary vector and the ELF model applied to the "
-                "files (slice mode) and to the memory image rebuilt from the map lines (process mode). Distinct = (#modules, #caller mappings, tag set). Some generated modules have the first 16 bytes of their loaded image overwritten by the target (file intact): identifier and SONAME must come from the file. Caller mappings whose system range begins one or two pages above their start (the two are independent inputs).",
+                "files (slice mode) and to the memory image rebuilt from the map lines (process mode). Distinct = (#modules, #caller mappings, tag set). Some generated modules have the first 16 bytes of their loaded image overwritten by the target (file intact): identifier and SONAME must come from the file. Caller mappings whose system range begins one or two pages above their start (the two are independent inputs). Some modules consist of a part of one file, an inaccessible page and a part of a different file (two modules); SONAMEs of 254 … 4000 bytes.",
         "expected_tags": ["id.memory", "id.file", "id.none", "id.unusable", "soname.memory", "soname.file", "soname.none", "mapping.nonzero-offset",
                           "mapping.contained", "mapping.uninteresting", "entry.swapped", "entry.first", "entry.unlisted", "users", "version.some", "ref.checked", "ref.unlisted"],
         "theorem_namespace": "Mod.",
@@ -303,7 +303,7 @@ PROPS = {
                 "traced by another process, threads that exit between enumeration and attach (each omitted thread must be a reported soft error), a target "
                 "that is killed and reaped while the dump is under way (from the destination, when the n-th directory entry is written, n = 6 … 16: every later "
                 "step that copies one of the target's files or reads its memory must be listed under its own label, no completed step may be), nothing induced. The soft-error stream is parsed with serde_json and reduced to its list of variant paths. "
-                "Distinct = (scenario, mask, #threads, principal). Also a linker list with an object name that is not UTF-8 (badlink). Also: the blamed thread traced by somebody else on a writer that served a request before (traced-reused), compared with a fresh writer's dump of the same situation.",
+                "Distinct = (scenario, mask, #threads, principal). Also a linker list with an object name that is not UTF-8 (badlink). Also: the blamed thread traced by somebody else on a writer that served a request before (traced-reused), compared with a fresh writer's dump of the same situation. Also targets in which every thread is traced by another process (alltraced): one attach failure per thread and SuspendNoThreadsLeft are expected.",
         "expected_tags": ["scen.faults", "scen.badname", "scen.baddso", "scen.traced", "scen.none", "scen.killed", "killed.checked", "scen.badlink", "scen.traced-reused", "scen.alltraced", "mask.0", "mask.31"],
         "extra_theorems": ["plan_best_effort_soft", "plan_soft_errors_last", "Suspend_source_agrees", "Suspend_retained", "Suspend_every_thread_tried", "Suspend_kept_listed", "Suspend_partition", "Suspend_no_threads_left", "Suspend_no_threads_left_reported"],
         "extra_modules": ["MdwModel.Theorems.Suspend"],
@@ -335,7 +335,7 @@ PROPS = {
         "rule": "live dumps (same generated targets and option combinations as C01): raw streams vs. the harness's own reads of /proc/<tid>/{cmdline,environ,auxv,limits,maps,status} "
                 "and /proc/cpuinfo taken while the target is blocked; memory-info list vs. the memory map through the model; handle descriptors vs. readlink/stat of "
                 "/proc/<pid>/fd; system info vs. the cpuinfo scan model; linker debug stream vs. the synthetic PHDR → PT_DYNAMIC → DT_DEBUG → r_debug → link_map chain the "
-                "target built (reached through caller-supplied auxv values). Distinct = (#map lines, #descriptors, #checks, #threads). A quarter of the live targets are the position-dependent build of the target program (ET_EXEC, load bias 0). Targets that keep a file open whose name is not UTF-8 or not ASCII: one handle descriptor per open descriptor, names by the lossy decoder. Synthetic linker lists with an object whose name ends with the last readable byte in front of a hole.",
+                "target built (reached through caller-supplied auxv values). Distinct = (#map lines, #descriptors, #checks, #threads). A quarter of the live targets are the position-dependent build of the target program (ET_EXEC, load bias 0). Targets that keep a file open whose name is not UTF-8 or not ASCII: one handle descriptor per open descriptor, names by the lossy decoder. Synthetic linker lists with an object whose name ends with the last readable byte in front of a hole. Open files that have been unlinked; linker lists with a NULL l_name behind named objects.",
         "expected_tags": ["raw.cmdline", "raw.environ", "raw.auxv", "raw.limits", "raw.maps", "meminfo.checked", "handles.checked", "sysinfo.checked", "dso.checked"],
         "trusted_base": ["the contents of /proc are what the kernel reports (external input)", "procfs-core's maps parser"],
         "assumptions": ["partial: 'as the kernel reports them' is an external input; volatile lines of /proc/<tid>/status (State, TracerPid, context-switch counters, pending signals) are masked"],
@@ -350,7 +350,7 @@ PROPS = {
                 "2^61, p_vaddr that under/overflows, dynamic entries / r_debug / link_map / names ending at unreadable memory, no DT_NULL) through the real "
                 "write_dso_debug_stream under a 3 s watchdog; whole dumps of targets mapping files with hostile names (non-ASCII, spaces, ' (deleted)', `.so.1.2.3é4`, "
                 "`/SYSVab`) and files from /dev/shm watched with inotify; the whole live option matrix with crash registers unmapped / at the top of the address space. "
-                "Distinct = distinct (kind, scenario, outcome) / parsed versions. Hostile linker data also with program-header counts beyond what an ELF header can announce (65535 … 74000) over a 4 MiB readable region. Generated modules with a note segment that ends in the middle of the build-id note. A case that does not come back within 45 s ends the run (HANG <case id>) and is reported as a violation with that case as replay.",
+                "Distinct = distinct (kind, scenario, outcome) / parsed versions. Hostile linker data also with program-header counts beyond what an ELF header can announce (65535 … 74000) over a 4 MiB readable region. Generated modules with a note segment that ends in the middle of the build-id note. A case that does not come back within 45 s ends the run (HANG <case id>) and is reported as a violation with that case as replay. Link-map lists with cycles that do not pass through the head (rho, rho-long, tail-selfloop), a dynamic table that is 8- but not 16-byte aligned in front of unreadable memory; the linker-data scenarios are taken in turn.",
         "expected_tags": ["sover", "sover.some", "sover.nonascii", "dso.cyclic", "dso.rho", "dso.rho-long", "dso.tail-selfloop", "dso.no-null-odd", "dso.mulphnum", "dso.dyn-short", "dso.linkmap-short", "dso.vaddr-underflow", "files.devshm-nonelf",
                           "files.sysv-name", "files.sover-name", "dump", "crash.ip.top", "crash.sp.top"],
         "extra_theorems": ["C12_total", "C06_total", "C06_walk_total", "C18_walk_cycle_diverges", "System_settled", "gatherStack_settled", "gatherThread_settled", "gatherApp_settled", "C13_layout", "System_settled_of_map", "LinkWalk_source_agrees", "LinkWalk_total"],
